@@ -66,3 +66,8 @@ chk("C09",
     "Explicit-state BFS over operation sequences on three constructed, pairwise xxhash64-colliding keys plus a plain key (3 backends, with and without key-buffer scribbling after every call) against an ideal per-key model that only tolerates a miss explained by a later colliding write; plus exhaustive schedule enumeration of Failover Gets whose caller overwrites or reuses the key buffer at every scheduling position relative to the background build.",
     "Trusted: the collision construction is asserted against cespare/xxhash at run time; ideal model ref.ExpMap. Colliding keys other than the constructed 64-byte family are not explored.",
     "constructed adversarial inputs + explicit-state BFS + stateless model checking of the implementation", "DESIGN.md §C09")
+
+chk("C08",
+    "Exhaustive enumeration of schedules (preemption bound 2 with happens-before caching; thorough: unbounded) of all small client programs (2-3 threads x 1-2 Write/Read/Delete operations on two same-shard keys) plus one batch thread (ExpireAll, DeleteAll, delete-expired, eviction under three strategies, Walk) on the three real backends; every per-key invocation/response history is checked with porcupine v1.3.0 against a nondeterministic register-with-expiry model in which a batch call is one pseudo-operation per key.",
+    "Trusted: porcupine; the register model. Abstraction: the instrumented build has 4 instead of 128 shards (vinst -const shards=4) so that batch operations are short enough to interleave exhaustively. Exhaustive below 3(+1) threads x 2 operations only.",
+    "stateless model checking of the implementation (DFS over schedules, HB caching) + linearizability checking of every explored history", "DESIGN.md §C08")
